@@ -1,5 +1,5 @@
 (* C19 — a blacklisted address never receives content. Property theorems only. *)
-From Hv Require Import Prelude Bytes TablesHttp Http Blacklist BlacklistProofs.
+From Hv Require Import Prelude Bytes TablesHttp Http Blacklist BlacklistProofs BlacklistMoreProofs.
 Open Scope N_scope.
 
 (* For every header list (whatever X-Forwarded-For the client sends), every address parser and both modes: a client
@@ -22,6 +22,20 @@ Theorem C19_forwarded_listed_403 :
     serve ipp block bl p hs = Forbidden.
 Proof. exact forwarded_listed_403. Qed.
 
+(* in terms of the header text: any entry of the comma-separated X-Forwarded-For value - first, middle or last, with
+   whatever blanks around it - that parses to a listed address gets the request refused *)
+Theorem C19_forwarded_entry_listed_403 :
+  forall ipp block bl p hs fwd e a,
+    mem (p_ip p) bl = false -> hget XFF hs = Some fwd -> In e (split_on 44 fwd) -> ipp (trim e) = Some a ->
+    mem a bl = true -> serve ipp block bl p hs = Forbidden.
+Proof. exact forwarded_entry_listed_403. Qed.
+
+(* nothing but the peer address, the list, the mode and that header field decides *)
+Theorem C19_verdict_depends_on_xff_only :
+  forall ipp block bl p hs1 hs2,
+    hget XFF hs1 = hget XFF hs2 -> serve ipp block bl p hs1 = serve ipp block bl p hs2.
+Proof. exact serve_depends_on_xff_only. Qed.
+
 (* clients whose own and forwarded addresses are all unlisted are served *)
 Theorem C19_unlisted_served :
   forall ipp block bl p hs,
@@ -42,6 +56,8 @@ Example C19_example :
 Proof. vm_compute. repeat split. Qed.
 
 Print Assumptions C19_listed_never_served.
+Print Assumptions C19_forwarded_entry_listed_403.
+Print Assumptions C19_verdict_depends_on_xff_only.
 Print Assumptions C19_listed_block_dropped_forbidden_403.
 Print Assumptions C19_forwarded_listed_403.
 Print Assumptions C19_unlisted_served.
